@@ -17,53 +17,61 @@ TAKEN = {
          "qfree removes the virtual address from the in-use set", "modulus check only on addm (subm unchecked)",
          "a fault inside a generator-style instruction is reported one line late", "register banks have 15 registers instead of 16",
          "a taken jump to line 0 falls through", "IndexError faults lose their line", "ret_reg publishes under the subroutine id",
-         "resetting one program counter clears all of them", "stop computes the remaining in-use set before the clears"],
+         "resetting one program counter clears all of them", "stop computes the remaining in-use set before the clears",
+         "the running line kept on the executor instead of per subroutine", "qfree releases its addresses only after the (suspending) clear"],
  "C05": ["register-indexed array element compiled as index 0", "ret_arr copies / snapshots the array", "loop_until counter released before the exit condition is built",
          "addm implemented as one conditional subtraction",
          "reset() keeps the registers-to-return list", "flush with only array declarations pending is skipped", "loop_until gives up one try early",
          "an array-stored measurement frees all M registers", "bge exit test for non-unit loop steps (breaks count-down loops)",
          "loop_body drops its step argument", "an if with an empty body drops the commands pending before it",
          "both operands of a binary if loaded into one register", "Future.add(Future) leaks a register per call",
-         "array addresses derived from the to-return list", "adjacent branch labels not resolved"],
+         "array addresses derived from the to-return list", "adjacent branch labels not resolved",
+         "index of a Future-indexed element accessed with the store instruction", "bge does not branch on equality"],
  "C06": ["template value 0 left unsubstituted", "builder reset moved between compile() and commit", "instantiate() stops substituting after each name was seen once",
          "compile() clears return lists by hand (M registers never released)", "templated rotation emitted before its qubit register is set", "early return for template-free subroutines skips the reset",
          "NV transpiler skipped for templated subroutines", "instantiate substitutes in place (shared list across copies)",
          "template positions recorded before the NV transpiler replaces the instruction list", "template values wrapped modulo 255",
          "compiled subroutine has no app id until instantiate()", "a template named like a branch label resolved as that label", "instantiate() empties the instruction list first",
-         "instantiate() pops the used names out of the caller's dict", "templated numerator with denominator 0 refused"],
+         "instantiate() pops the used names out of the caller's dict", "templated numerator with denominator 0 refused",
+         "commit_subroutine flushes pending operations first", "instantiate looks template names up by substring"],
  "C08": ["branch to the end label retargeted wrongly", "scratch electron register never released", "scratch register chosen from the wrong bookkeeping set",
          "debug=True collapses the SWAP expansion", "cphase with the electron as second operand not swapped", "hardware angle rescaling 2*d instead of 2**d",
          "transpiler bookkeeping shared between transpiler objects", "old-to-new index map recorded after emitting (label on a gate lands at the end of its expansion)",
          "unary-branch line setter writes a stray attribute", "set Qx v elided when the tracked value already is v",
          "cnot carbon->electron expansion aliased", "carbon-carbon cphase executes as cnot", "hardware setting: rot_y keeps the old denominator",
-         "jmp no longer retargeted", "register-value lookup memoised"],
+         "jmp no longer retargeted", "register-value lookup memoised",
+         "sign slip in the carbon-to-electron mov decomposition", "scratch-register set emitted only at the textually first carbon-carbon gate"],
  "C09": ["NV relocation does not update the handle", "_has_virtual_address truthiness (physical qubit 0)", "non-sequential keep takes consecutive IDs from the first hole",
          "measure() deactivates the handle before building commands",
          "pop(0) of the pending response list", "min-fidelity retry clean-up frees IDs 0..n-1", "NV just-initialised shortcut fires for another qubit",
          "pairs_left decremented in _extract_epr_info", "register measurement (store_array=False) omits the qfree",
          "ID search starts at the number of live handles", "NV receive: correction on ID 0 after the pair was moved to memory",
          "entanglement info stored before the keep handler decides", "wait_all resumes when any entry is defined",
-         "finished subroutines hand their id back", "create request booked before put() (refusal leaves it behind)"],
+         "finished subroutines hand their id back", "create request booked before put() (refusal leaves it behind)",
+         "busy check of a keep response keyed by subroutine id", "stop_application releases the virtual instead of the physical address"],
  "C10": ["NV move-to-memory corrects the wrong qubit", "recv_rsp_with_info drops expect_phi_plus", "correction block applied once after the loop",
          "measure-directly post-processing reads pair 0's Bell state for every pair",
          "PSI_MINUS flip list wrong for MX/MY", "no wait/correction for a sequential single pair", "qlink-1.0 measure response loses its Bell state",
          "double correction with a non-sequential post routine", "the creator corrects too on single-comm-qubit hardware",
          "non-sequential post routine never corrected", "MY / MZ rotations looked up as each other",
          "array addresses restart after every flush", "min-fidelity clean-up keyed on 'no post routine' instead of 'not sequential'",
-         "per-pair wait computes pair+1 as 1", "entanglement info stored before the handler decides"],
+         "per-pair wait computes pair+1 as 1", "entanglement info stored before the handler decides",
+         "backlog pops the newest response instead of the handled one", "request serialisation fills a module-level default list in place"],
  "C11": ["remote rotations dropped when the local ones are zero", "pop(0) of the pending response list", "qlink-1.0 conversion copies a local angle into a remote field",
          "recv_measure passes the remote socket id", "deferred keep response still consumes a pair slot",
          "create-request defaults are one shared dict", "request booked before put() with no rollback when put() raises",
          "create request booked under the socket id instead of the purpose id",
          "'no request yet' tested by key membership", "EPRSocket keeps the remote node id of its first connection",
-         "receive branch retires with pop() instead of pop(0)", "recv_measure waits for pair 0 only"],
+         "receive branch retires with pop() instead of pop(0)", "recv_measure waits for pair 0 only",
+         "stale handled flag in a single sweep over the backlog", "creator-side response falls back to the receiver role when no create is booked"],
  "C12": ["pop(0) of the pending response list", "pairs_left decremented before the handler", "directionality flag lost for measure responses",
          "_has_virtual_address truthiness", "wait_all resumes when any entry is defined", "pending-response loop keeps iterating after a handled response",
          "receive requests filed under the socket id instead of the purpose id", "retiring a request drops the socket's whole request list",
          "busy check looks at the unit module of app id = subroutine id", "pair index = sequence number mod pairs",
          "create request filed before the stack accepts it", "entanglement info stored before the handler runs", "'no request yet' tested by key membership",
          "wait_single waits once instead of until defined", "newest instead of oldest request matched", "subroutine ids reused",
-         "backlog replayed newest-first", "purpose id cached per socket id only"],
+         "backlog replayed newest-first", "purpose id cached per socket id only",
+         "array declaration is a no-op when an array of that length exists", "backlog list shared by all executors (class attribute)"],
  "C13": ["stop removes the virtual instead of the physical address", "subroutine ids reused while in flight", "qfree removes the virtual address from the used set",
          "keep response marks the physical qubit before the busy check",
          "Arrays() shares a mutable default dict", "physical qubit marked used before the checks of qalloc",
@@ -71,13 +79,15 @@ TAKEN = {
          "unused physical qubit = size of the used set",
          "qfree releases the physical qubit before and unmaps after the clear", "stop computes the remaining in-use set before the clears and assigns it after",
          "_get_unused_physical_qubit no longer marks what it returns", "controller forgets an application whose duplicate registration was refused",
-         "stopping application 0 forgets every application's shared memory"],
+         "stopping application 0 forgets every application's shared memory",
+         "backlog pop(0) instead of pop(i)", "create request booked before put() (refused request stays booked)"],
  "C14": ["empty-body loop keeps its register", "condition temporary released too early", "a finished EPR receive keeps one register", "loop_until counter released too early",
          "M registers only reclaimed if listed for return", "add(<register>) releases the register of the caller", "index temporary of a future-indexed element never released",
          "array-initialisation loop register never released", "RegFuture.add leaks its temporary",
          "allocator search hint only lowered by the register directly below it", "array measurement releases the qubit register instead of the outcome register",
          "every MemoryManager shares one default set of active registers", "only the last temporary of a binary condition released", "EPR context pair counter not reserved while the body is built",
-         "an aborted conn.loop keeps its register", "unary condition releases a register of an enclosing operation"],
+         "an aborted conn.loop keeps its register", "unary condition releases a register of an enclosing operation",
+         "M-register pool rebuilt with 15 registers at a flush", "NV keep without corrections leaks two registers"],
  "C18": ["disconnect pops the peer's receive callback", "connect clears the inbox after the socket is visible", "recv pops from a snapshot and writes it back",
          "disconnect removes the wrong key from the remote set",
          "connect records itself as remote only if the peer is not open", "recv_structured ignores block=False", "broadcast recv pops every pending socket and returns the last",
@@ -85,13 +95,15 @@ TAKEN = {
          "_wait_for_remote looks only at the remote-marker set", "recv checks the deadline between taking the message and returning it",
          "StorageThreadSocket creates its storage after connecting", "a timed-out connect also drops the inbox", "deadline checked before looking for the peer",
          "send_structured checks the connection after handing the message over", "non-blocking recv deletes the inbox entry in a second lock section", "broadcast recv skips sockets whose remote has left",
-         "a message handed to the callback is queued as well", "logging wrapper returns the log-trimmed text"],
+         "a message handed to the callback is queued as well", "logging wrapper returns the log-trimmed text",
+         "callback lookup split into check and use", "queued path replaces the inbox list instead of appending"],
  "C20": ["parity_meas flips back by the first qubit's basis", "negative angles folded with fmod", "parity_meas keeps its ancilla",
          "toffoli: last T-dagger and CNOT swapped", "trivial Pauli string returns before the sign flip", "single-qubit parity outcome kept in a register",
          "array addresses restart after every flush (memmgr)", "qfree releases the wrong physical-qubit number (executor)",
          "subroutine ids reused under interleaving of two applications (executor)", "builder reset only after a blocking flush (connection)",
          "ancilla CNOTs use positions instead of stored indices", "memmgr free-ID search starts at the number of live handles", "class-level shared array dict",
-         "basis rotations emitted before the ancilla allocation", "angle decomposition stops at tol*pi"],
+         "basis rotations emitted before the ancilla allocation", "angle decomposition stops at tol*pi",
+         "NV carbon-to-electron CNOT mapped the wrong way round", "relocated qubit's handle keeps its old id in the rewrite branch"],
 }
 
 timing = ""
@@ -101,6 +113,14 @@ if len(sys.argv) > 4 and sys.argv[4] == "timing":
               "layer), the arrival order or delay of messages and link-layer responses, a fault at a particular point (a refused request, "
               "a time-out, an error response, an exception half-way through an operation), a stop / restart / re-connection at a "
               "particular moment. The demonstration should then construct that interleaving or fault deterministically.\n\n")
+if len(sys.argv) > 4 and sys.argv[4] == "failure":
+    timing = ("FOR THIS ROUND prefer changes that only matter on a FAILURE or RECOVERY path: something is refused, raises, times out, is "
+              "stopped, closed or re-created half-way (an exception raised inside a user callback or context body that the application "
+              "catches, a request the network stack or the controller refuses, a subroutine that faults while other work is in flight, "
+              "an application that is stopped and registered again, a connection or socket that is closed and opened again) -- and what "
+              "must still hold AFTERWARDS for the work that follows (state left behind, resources not given back, the wrong party "
+              "blamed or affected). The demonstration should inject that failure deterministically and then show the later, healthy "
+              "work going wrong.\n\n")
 taken = "".join(f"\n  - {t}" for t in TAKEN.get(pid, []))
 print(f"""You are helping test a verification effort for the open-source Python project QuTech-Delft/netqasm (a quantum-network instruction set: SDK that builds IR, assembler/encoder, NV transpiler, base executor/interpreter).
 
